@@ -56,7 +56,7 @@ func Parse(text string) (h *Handle, diags []Diagnostic, synErr string, p *PanicI
 	listener := parser.NewSyntaxErrorListener()
 	prs.RemoveErrorListeners()
 	prs.AddErrorListener(listener)
-	tree := prs.Packet()
+	tree := parser.ParseWholeInput(prs, listener)
 	if listener.HasErrors() {
 		return nil, nil, fmt.Sprintf("syntax errors found: %v", listener.Errors), nil
 	}
